@@ -207,6 +207,20 @@ def obligations(fnode):
                     okv = isinstance(val, ast.Subscript) and isinstance(val.value, ast.Name) and val.value.id in sym_names and \
                         isinstance(val.slice, ast.Name) and okk and val.slice.id == key.right.id
                     out.append(("write into the module-level symbol table at line %d binds 'a<i>' to the i-th parameter symbol" % n.lineno, bool(okk and okv), n.lineno))
+    # F6: process-wide numeric state (numpy's floating-point error handling) changed inside a function is put back on EVERY path: either through
+    # `with np.errstate(...)`, or `old = np.seterr(...)` with `np.seterr(**old)` in a `finally:` of the same function -- otherwise what a later
+    # stage in the same process computes (inf and a warning, or FloatingPointError) depends on whether this call returned normally
+    finals = []
+    for n in ast.walk(fnode):
+        if isinstance(n, ast.Try):
+            finals += [m for b in n.finalbody for m in ast.walk(b)]
+    final_ids = {id(m) for m in finals}
+    setters = [n for n in ast.walk(fnode) if isinstance(n, ast.Call) and (_dotted(n.func) or "").split(".")[-1] in ("seterr", "seterrcall", "setbufsize")]
+    for n in setters:
+        if id(n) in final_ids:
+            continue
+        restored = any(isinstance(m, ast.Call) and (_dotted(m.func) or "").split(".")[-1] == (_dotted(n.func) or "").split(".")[-1] for m in finals)
+        out.append(("numpy's floating-point error state changed at line %d is restored in a `finally:` of the same function (or use `with np.errstate`)" % n.lineno, restored, n.lineno))
     return out
 
 
